@@ -14,6 +14,7 @@ from simkit.core import EventLog, Outcome, Violation, stream_rng, stable_hash
 ID = "C14"
 LEVEL = "exploration"
 TIERS = {"quick": {"runs": 150000, "wall": 120}, "thorough": {"runs": 3000000, "wall": 1500}}
+HASHSEED_RUNS = {"quick": 300, "thorough": 3000}    # S7: identical event logs under other hash seeds
 RULE = ("trace = seeded history (<= 20 steps) over 1..3 Version handles: construct from a "
         "string built from version-alphabet pieces and foreign characters (space, newline, "
         "'_', non-ASCII letters and digits), copy-construct, assign epoch / upstream_version / "
